@@ -122,9 +122,11 @@ DeleteEffect(live, r) == Minus(live, Offs(r.deleted))
 DeleteMultiOK(live, segver, par, S, r) ==
   IF S = {} THEN r.err = "" /\ r.deleted = <<>> /\ r.size = 0
   ELSE IF \E o \in S : o < 0 THEN r.err = "InvalidOffset" /\ r.deleted = <<>>
+  \* "Stopped": the caller's backoff returned an error (only the harness's own backoff does): what was deleted until
+  \* then is reported - DeletedCoreOK, and the scans that follow see exactly those messages gone
   ELSE /\ DeletedCoreOK(live, segver, par, S, r)
-       /\ r.err # "" => (r.err = "NotFound" /\ ~(S \subseteq Offs(live)))
-       /\ (S \subseteq Offs(live)) => (r.err = "" /\ Offs(r.deleted) = S)
+       /\ r.err \notin {"", "Stopped"} => (r.err = "NotFound" /\ ~(S \subseteq Offs(live)))
+       /\ (S \subseteq Offs(live) /\ r.err # "Stopped") => (r.err = "" /\ Offs(r.deleted) = S)
 
 \* ---- C13: Stat
 StatOK(live, fsSegments, fsBytes, r) ==
@@ -256,6 +258,10 @@ RecoveredOK(obs, hasKeys, hasTimes, mono) ==
   /\ obs.hash1 = obs.hash2                          \* recovering again changes nothing
   /\ obs.appendErr = "" /\ obs.checkAfter = ""      \* can be appended to and still passes Check
   /\ obs.appended = obs.live \o <<[obs.newmsg EXCEPT !.off = obs.next]>>
+  \* ... and used further: a Delete, close, open with Recover - exactly the reported messages are gone
+  /\ obs.delErr = ""
+  /\ Range(obs.deleted) \subseteq Range(obs.delset)
+  /\ obs.afterDelete = Minus(obs.appended, Range(obs.deleted))
 CrashRecoverOK(S, op, T, obs, hasKeys, hasTimes, mono) ==
   /\ RecoveredOK(obs, hasKeys, hasTimes, mono)
   /\ obs.next >= S.next                             \* NextOffset has not moved backwards
